@@ -16,16 +16,20 @@ Definition result_eqb (r : result) (o : story) : bool :=
 Definition conflictb (ev : story) : bool :=
   existsb (fun p => existsb (fun q => (fst p =? fst q) && negb (snd p =? snd q)) ev) ev.
 
-(* get_gls: stand-alone function *)
+(* get_gls: stand-alone function, called twice on the SAME pattern object (a list or a numpy
+   array) with two missing_data settings; both results are compared with the model on the
+   ORIGINAL pattern *)
 Record gls_case := {
   gc_tree : tree;
-  gc_pat : list (Z * Z);       (* zip(taxa, paps), taxa order *)
+  gc_pat : list (Z * Z);       (* zip(taxa, paps), taxa order; the pattern as it was before the calls *)
   gc_gpl : Z;
   gc_g : Z;
   gc_l : Z;
   gc_push : bool;
   gc_md : Z;
-  gc_out : story               (* what the implementation returned *)
+  gc_out : story;              (* what the implementation returned, first call *)
+  gc_md2 : Z;
+  gc_out2 : story              (* second call, missing_data = gc_md2 *)
 }.
 
 (* all tips below the common ancestor of the presences are present *)
@@ -34,21 +38,24 @@ Definition all_present_below_lca (pat : list (Z * Z)) (t : tree) : option Z :=
   let sub := lca_sub isP t in
   if has_present isP t && forallb isP (tips sub) then Some (tname sub) else None.
 
-Definition single_gain_okb (c : gls_case) : bool :=
+Definition single_gain_okb (c : gls_case) (out : story) : bool :=
   match all_present_below_lca (gc_pat c) (gc_tree c) with
-  | Some r => story_eqb (gc_out c) [(r, 1)]
+  | Some r => story_eqb out [(r, 1)]
   | None => true
   end.
 
-Definition gls_case_code (c : gls_case) : nat :=
-  let w := weight_ev (gc_g c) (gc_l c) (gc_out c) in
-  let o := opt (gc_g c) (gc_l c) (gc_md c) (gc_pat c) (gc_tree c) in
-  bit 0 (result_eqb (get_gls (gc_pat c) (gc_tree c) (gc_gpl c) (gc_g c) (gc_l c) (gc_push c) (gc_md c)) (gc_out c))
-  + bit 1 (replay_okb (gc_md c) (gc_pat c) (gc_tree c) (gc_out c))
+Definition gls_call_code (c : gls_case) (md : Z) (out : story) : nat :=
+  let w := weight_ev (gc_g c) (gc_l c) out in
+  let o := opt (gc_g c) (gc_l c) md (gc_pat c) (gc_tree c) in
+  bit 0 (result_eqb (get_gls (gc_pat c) (gc_tree c) (gc_gpl c) (gc_g c) (gc_l c) (gc_push c) md) out)
+  + bit 1 (replay_okb md (gc_pat c) (gc_tree c) out)
   + bit 2 (o <=? w)
   + bit 3 (negb (Z.of_nat (length (tips (gc_tree c))) <=? gc_gpl c) || (w =? o))
-  + bit 4 (single_gain_okb c)
-  + bit 6 (negb (conflictb (gc_out c))).
+  + bit 4 (single_gain_okb c out)
+  + bit 6 (negb (conflictb out)).
+
+Definition gls_case_code (c : gls_case) : nat :=
+  Nat.lor (gls_call_code c (gc_md c) (gc_out c)) (gls_call_code c (gc_md2 c) (gc_out2 c)).
 
 (* brute-force cross-check of the dynamic programme (thorough tier, small trees) *)
 Definition gls_brute_code (c : gls_case) : nat :=
@@ -107,7 +114,9 @@ Record phybo_item := {
   pi_gpl : Z;
   pi_push : bool;
   pi_md : Z;
-  pi_paps : list Z;            (* phy.paps[cog] before the call *)
+  pi_paps : list Z;            (* phy.paps[cog] immediately before the call: input of the model *)
+  pi_obs : list Z;             (* the pattern of the cognate set as first built from the wordlist: what the
+                                  stored scenario must reproduce under this call's missing_data *)
   pi_exact : bool;             (* compare with the model (false for top-down: the result depends on
                                   the cognate sets processed before, see notes/design/C07.md) *)
   pi_out : story               (* phy.gls[glm][cog][0] *)
@@ -123,9 +132,9 @@ Definition phybo_item_code (t : tree) (taxa : list Z) (i : phybo_item) : nat :=
   let pat := combine taxa (pi_paps i) in
   bit 0 (negb (pi_exact i) ||
          result_eqb (phybo_per_cog pat t (pi_mode i) (pi_gpl i) (pi_push i) (pi_md i)) (pi_out i))
-  + bit 1 (replay_okb (pi_md i) pat t (pi_out i))
+  + bit 1 (replay_okb (pi_md i) (combine taxa (pi_obs i)) t (pi_out i))
   + bit 6 (negb (conflictb (pi_out i)))
-  + bit 7 (Nat.eqb (length taxa) (length (pi_paps i))).
+  + bit 7 (Nat.eqb (length taxa) (length (pi_paps i)) && Nat.eqb (length taxa) (length (pi_obs i))).
 
 Definition phybo_case_code (c : phybo_case) : nat :=
   fold_right (fun i acc => Nat.lor (phybo_item_code (pc_tree c) (pc_taxa c) i) acc) 0%nat (pc_items c).
